@@ -120,7 +120,7 @@ func Worker(a WorkerArgs) int {
 		}
 		if len(fresh) > 0 {
 			v := fresh[0]
-			path, err := ShrinkAndWrite(a.Prop, a.Tier, a.Seed, run, v, res, open)
+			path, err := ShrinkAndWrite(a.Prop, a.Tier, a.Seed, run, v, res, open, &HistorySpec{Start: a.Start, Stride: a.Stride})
 			if err != nil {
 				emit(Msg{T: "harness", Run: run, Err: "writing replay: " + err.Error()})
 				return 2
@@ -139,7 +139,7 @@ func Worker(a WorkerArgs) int {
 }
 
 // ShrinkAndWrite minimises the failing run and writes its replay file.
-func ShrinkAndWrite(prop, tier string, seed uint64, run int, v props.Violation, res RunResult, open map[string]bool) (string, error) {
+func ShrinkAndWrite(prop, tier string, seed uint64, run int, v props.Violation, res RunResult, open map[string]bool, hist *HistorySpec) (string, error) {
 	clause := v.Clause
 	test := func(vals []uint64) (bool, []uint64, []tape.Span) {
 		r := Execute(prop, tier, seed, run, vals, open, nil)
@@ -179,6 +179,9 @@ func ShrinkAndWrite(prop, tier string, seed uint64, run int, v props.Violation, 
 		Property: prop, Clause: clause, What: fv.What, Tier: tier, Seed: seed, Run: run, Race: IsRaceBuild, Instr: sched.Instrumented,
 		Mode: "tape", Tape: fin.Values, Labels: labelsOf(fin.Draws), Detail: fv.Detail, Narrative: fin.Ctx.Notes, Shrink: st,
 	}
+	if hist != nil && hist.Stride > 0 && run > hist.Start {
+		rf.History = hist
+	}
 	return WriteReplay(rf)
 }
 
@@ -197,7 +200,24 @@ func Replay(path string, verbose bool) int {
 		return 2
 	}
 	fmt.Printf("replaying %s: property=%s clause=%s seed=%d run=%d draws=%d\n", path, rf.Property, rf.Clause, rf.Seed, rf.Run, len(rf.Tape))
-	res := Execute(rf.Property, rf.Tier, rf.Seed, rf.Run, rf.Tape, open, nil)
+	vals := rf.Tape
+	if rf.NeedsHistory && rf.History != nil && rf.History.Stride > 0 {
+		// the violation depends on what earlier runs of the worker process left behind: they are
+		// executed first, from the seed, and then the run itself, from the seed as well (the
+		// minimised tape in the file was minimised in the state those runs had left)
+		n := 0
+		for r := rf.History.Start; r < rf.Run; r += rf.History.Stride {
+			h := Execute(rf.Property, rf.Tier, rf.Seed, r, nil, open, nil)
+			if h.HarnessErr != "" {
+				fmt.Fprintln(os.Stderr, h.HarnessErr)
+				return 2
+			}
+			n++
+		}
+		fmt.Printf("process history: runs %d, %d, ... (%d runs of seed %d) executed first in this process\n", rf.History.Start, rf.History.Start+rf.History.Stride, n, rf.Seed)
+		vals = nil
+	}
+	res := Execute(rf.Property, rf.Tier, rf.Seed, rf.Run, vals, open, nil)
 	if res.HarnessErr != "" {
 		fmt.Fprintln(os.Stderr, res.HarnessErr)
 		return 2
